@@ -3,6 +3,7 @@ use crate::{
     get_downlink_format, get_icao, get_message,
 };
 use log::{debug, error, info};
+#[cfg(not(squitterator_verif))]
 use std::{
     fs::File,
     io::{BufRead, BufReader, Result},
@@ -10,6 +11,16 @@ use std::{
     sync::{Arc, Mutex},
     thread::{self, sleep},
     time::Duration,
+};
+
+#[cfg(squitterator_verif)]
+use {
+    crate::verif_seam::{File, TcpStream, sleep, thread},
+    std::{
+        io::{BufRead, BufReader, Result},
+        sync::{Arc, Mutex},
+        time::Duration,
+    },
 };
 
 fn read_lines<R: BufRead>(reader: R, args: &Args, planes: &mut Planes) -> Result<()> {
